@@ -1,0 +1,292 @@
+/*
+    Verification hooks (cargo feature "verif", off by default).
+
+    Everything in here is inert unless it is armed, either by a harness that
+    includes these sources in-process (thread-local state, see `arm_thread`)
+    or, for the real binary, by environment variables:
+
+      WALLEYE_VERIF_CLOCK=k0,k1,...   virtual clock, one entry per `go` ("inf" = never expires,
+                                      the last entry is reused for further `go`s)
+      WALLEYE_VERIF_DEPTH=d0,d1,...   stop the search after iteration d (0 = no stop)
+      WALLEYE_VERIF_DUMP=1            dump loop/search state to stderr
+
+    With the feature "verif_loom" (only meaningful inside the scheduler harness, which
+    provides `crate::sched`) all hooks forward to the harness.
+*/
+#![allow(dead_code)]
+
+#[cfg(feature = "verif_loom")]
+pub use crate::sched::hooks::*;
+
+#[cfg(not(feature = "verif_loom"))]
+pub use self::std_hooks::*;
+
+use crate::board::*;
+use crate::draw_table::DrawTable;
+
+// One line describing every field of the board, hidden ones included
+pub fn describe_board(board: &BoardState) -> String {
+    let mut s = String::new();
+    for i in BOARD_START..BOARD_END {
+        for j in BOARD_START..BOARD_END {
+            s.push(match board.board[i][j] {
+                Square::Empty => '.',
+                Square::Boundary => '#',
+                Square::Full(p) => {
+                    let c = match p.kind {
+                        PieceKind::Pawn => 'p',
+                        PieceKind::Knight => 'n',
+                        PieceKind::Bishop => 'b',
+                        PieceKind::Rook => 'r',
+                        PieceKind::Queen => 'q',
+                        PieceKind::King => 'k',
+                    };
+                    if p.color == PieceColor::White {
+                        c.to_ascii_uppercase()
+                    } else {
+                        c
+                    }
+                }
+            });
+        }
+    }
+    let mut boundary_ok = true;
+    for i in 0..12 {
+        for j in 0..12 {
+            let inside = (BOARD_START..BOARD_END).contains(&i) && (BOARD_START..BOARD_END).contains(&j);
+            if !inside && board.board[i][j] != Square::Boundary {
+                boundary_ok = false;
+            }
+        }
+    }
+    let pt = |p: &Point| format!("{}.{}", p.0, p.1);
+    format!(
+        "sq={} stm={} rights={}{}{}{} ep={} wk={} bk={} last={} promo={} oh={} key={} ring={}",
+        s,
+        if board.to_move == PieceColor::White { "w" } else { "b" },
+        if board.white_king_side_castle { "K" } else { "-" },
+        if board.white_queen_side_castle { "Q" } else { "-" },
+        if board.black_king_side_castle { "k" } else { "-" },
+        if board.black_queen_side_castle { "q" } else { "-" },
+        board.pawn_double_move.as_ref().map(pt).unwrap_or_else(|| "-".to_string()),
+        pt(&board.white_king_location),
+        pt(&board.black_king_location),
+        board
+            .last_move
+            .as_ref()
+            .map(|(a, b)| format!("{}>{}", pt(a), pt(b)))
+            .unwrap_or_else(|| "-".to_string()),
+        board
+            .pawn_promotion
+            .map(|p| format!("{}{}", if p.color == PieceColor::White { "w" } else { "b" }, p.kind.alg()))
+            .unwrap_or_else(|| "-".to_string()),
+        board.order_heuristic,
+        board.zobrist_key,
+        if boundary_ok { "ok" } else { "BROKEN" },
+    )
+}
+
+// The repetition record as a sorted list key:count
+pub fn describe_table(draw_table: &DrawTable) -> String {
+    let mut v: Vec<(u64, u8)> = draw_table.table.iter().map(|(k, c)| (*k, *c)).collect();
+    v.sort_unstable();
+    let parts: Vec<String> = v.iter().map(|(k, c)| format!("{}:{}", k, c)).collect();
+    parts.join(",")
+}
+
+#[cfg(not(feature = "verif_loom"))]
+mod std_hooks {
+    use super::*;
+    use std::cell::{Cell, RefCell};
+    use std::sync::atomic::{AtomicUsize, Ordering::SeqCst};
+    use std::sync::OnceLock;
+    use std::time::Instant;
+
+    // ---------------------------------------------------------------- in-process (thread-local)
+    thread_local! {
+        // (queries so far, expiry index); expiry index u64::MAX = never
+        static CLOCK: Cell<Option<(u64, u64)>> = const { Cell::new(None) };
+        static CAPTURE: RefCell<Option<Vec<String>>> = const { RefCell::new(None) };
+        static DEPTH_STOP: Cell<u8> = const { Cell::new(0) };
+        // set in the search thread of the real binary: Some(expiry index)
+        static PROC_SEARCH: Cell<Option<(u64, u64)>> = const { Cell::new(None) };
+        static PROC_DEPTH: Cell<u8> = const { Cell::new(0) };
+    }
+
+    // Arm the hooks for the calling thread: virtual clock expiring at the k-th consultation
+    // (None = never), stop after the given iteration (0 = never), capture output
+    pub fn arm_thread(expiry: Option<u64>, stop_depth: u8, capture: bool) {
+        CLOCK.with(|c| c.set(Some((0, expiry.unwrap_or(u64::MAX)))));
+        DEPTH_STOP.with(|d| d.set(stop_depth));
+        CAPTURE.with(|c| *c.borrow_mut() = if capture { Some(Vec::new()) } else { None });
+    }
+
+    pub fn disarm_thread() {
+        CLOCK.with(|c| c.set(None));
+        DEPTH_STOP.with(|d| d.set(0));
+        CAPTURE.with(|c| *c.borrow_mut() = None);
+    }
+
+    // number of clock consultations since arm_thread
+    pub fn clock_queries() -> u64 {
+        CLOCK.with(|c| c.get().map(|(n, _)| n).unwrap_or(0))
+    }
+
+    pub fn take_capture() -> Vec<String> {
+        CAPTURE.with(|c| c.borrow_mut().as_mut().map(std::mem::take).unwrap_or_default())
+    }
+
+    // ---------------------------------------------------------------- real binary (environment)
+    struct ProcCfg {
+        clock: Option<Vec<u64>>,
+        depth: Vec<u8>,
+        dump: bool,
+    }
+
+    static PROC: OnceLock<ProcCfg> = OnceLock::new();
+    static ENTERED: AtomicUsize = AtomicUsize::new(0); // searches started
+    static DONE: AtomicUsize = AtomicUsize::new(0); // searches finished
+    static ANSWERED: AtomicUsize = AtomicUsize::new(0); // bestmove lines printed
+    static INFOS: AtomicUsize = AtomicUsize::new(0); // info lines of the current search
+    static IO_AFTER_DONE: AtomicUsize = AtomicUsize::new(0); // io polls since the search finished
+
+    fn proc_cfg() -> &'static ProcCfg {
+        PROC.get_or_init(|| {
+            let list = |name: &str| -> Option<Vec<String>> {
+                std::env::var(name)
+                    .ok()
+                    .map(|v| v.split(',').map(|s| s.trim().to_string()).filter(|s| !s.is_empty()).collect())
+            };
+            ProcCfg {
+                clock: list("WALLEYE_VERIF_CLOCK").map(|v| {
+                    v.iter()
+                        .map(|s| if s == "inf" { u64::MAX } else { s.parse().unwrap_or(u64::MAX) })
+                        .collect()
+                }),
+                depth: list("WALLEYE_VERIF_DEPTH")
+                    .map(|v| v.iter().map(|s| s.parse().unwrap_or(0)).collect())
+                    .unwrap_or_default(),
+                dump: std::env::var("WALLEYE_VERIF_DUMP").is_ok(),
+            }
+        })
+    }
+
+    fn nth<T: Copy>(v: &[T], i: usize) -> Option<T> {
+        if v.is_empty() {
+            None
+        } else {
+            Some(v[i.min(v.len() - 1)])
+        }
+    }
+
+    /*
+        Substitutable clock. None = use the real clock.
+        A zero allowance is "expired" in the real code without looking at the clock, keep it that way.
+    */
+    pub fn clock_query(_start: Instant, time_to_move_ms: u128) -> Option<bool> {
+        if time_to_move_ms == 0 {
+            return None;
+        }
+        if let Some((n, k)) = CLOCK.with(|c| c.get()) {
+            CLOCK.with(|c| c.set(Some((n + 1, k))));
+            return Some(n >= k);
+        }
+        let cfg = proc_cfg();
+        cfg.clock.as_ref()?;
+        if let Some((n, k)) = PROC_SEARCH.with(|c| c.get()) {
+            // search thread of the binary: own consultation counter
+            PROC_SEARCH.with(|c| c.set(Some((n + 1, k))));
+            return Some(n >= k);
+        }
+        // io thread of the binary: the deadline has passed once the search thread has finished and
+        // everything it sent had a chance to be received (one try_recv per poll)
+        let entered = ENTERED.load(SeqCst);
+        let done = DONE.load(SeqCst);
+        let answered = ANSWERED.load(SeqCst);
+        if entered == done && done == answered + 1 {
+            let polls = IO_AFTER_DONE.fetch_add(1, SeqCst);
+            return Some(polls >= INFOS.load(SeqCst) + 2);
+        }
+        Some(false)
+    }
+
+    // Returns true if the message was captured (and must not be printed)
+    pub fn capture(msg: &str) -> bool {
+        let captured = CAPTURE.with(|c| {
+            if let Some(v) = c.borrow_mut().as_mut() {
+                v.push(msg.to_string());
+                true
+            } else {
+                false
+            }
+        });
+        if captured {
+            return true;
+        }
+        let cfg = proc_cfg();
+        if cfg.clock.is_some() || !cfg.depth.is_empty() {
+            if msg.starts_with("info") {
+                INFOS.fetch_add(1, SeqCst);
+            } else if msg.starts_with("bestmove") {
+                ANSWERED.fetch_add(1, SeqCst);
+            }
+        }
+        false
+    }
+
+    pub struct SearchGuard {
+        proc_mode: bool,
+    }
+
+    impl Drop for SearchGuard {
+        fn drop(&mut self) {
+            if self.proc_mode {
+                DONE.fetch_add(1, SeqCst);
+            }
+        }
+    }
+
+    // Called on entry of the search; the guard marks the end of the search thread's work
+    pub fn search_enter(board: &BoardState, draw_table: &DrawTable) -> SearchGuard {
+        if CLOCK.with(|c| c.get()).is_some() {
+            return SearchGuard { proc_mode: false };
+        }
+        let cfg = proc_cfg();
+        if cfg.dump {
+            eprintln!("VERIF-SEARCH {} table=[{}]", describe_board(board), describe_table(draw_table));
+        }
+        if cfg.clock.is_none() && cfg.depth.is_empty() {
+            return SearchGuard { proc_mode: false };
+        }
+        INFOS.store(0, SeqCst);
+        IO_AFTER_DONE.store(0, SeqCst);
+        let gen = ENTERED.fetch_add(1, SeqCst);
+        if let Some(clock) = &cfg.clock {
+            PROC_SEARCH.with(|c| c.set(Some((0, nth(clock, gen).unwrap_or(u64::MAX)))));
+        }
+        PROC_DEPTH.with(|d| d.set(nth(&cfg.depth, gen).unwrap_or(0)));
+        SearchGuard { proc_mode: true }
+    }
+
+    // True if the search has to stop after having completed iteration `depth`
+    pub fn stop_after_depth(depth: u8) -> bool {
+        let d = DEPTH_STOP.with(|d| d.get());
+        if d != 0 {
+            return depth >= d;
+        }
+        let d = PROC_DEPTH.with(|d| d.get());
+        d != 0 && depth >= d
+    }
+
+    // Called at the end of every iteration of the UCI loop
+    pub fn loop_state(buffer: &str, board: &BoardState, draw_table: &DrawTable) {
+        if proc_cfg().dump {
+            eprintln!(
+                "VERIF-STATE cmd=[{}] {} table=[{}]",
+                buffer,
+                describe_board(board),
+                describe_table(draw_table)
+            );
+        }
+    }
+}
